@@ -93,16 +93,28 @@ func (m *Manager) IncreaseTrackedResource(queuePath, applicationID string, usage
 		log.Log(log.SchedUGM).Debug("Mandatory parameters are missing to increase the resource usage")
 		return
 	}
-	// since we check headroom before an increase this should never result in a creation...
-	// some tests might not go through a scheduling that cycle so leave this
-	userTracker := m.getUserTracker(user.User)
-	// make sure the user has a groupTracker for this application, if not yet there add it
-	// since we check headroom before an increase this should never result in a call...
-	// some tests might not go through a scheduling cycle so leave this
-	if !userTracker.hasGroupForApp(applicationID) {
-		m.ensureGroupTrackerForApp(userTracker, queuePath, applicationID, user)
+	var userTracker *UserTracker
+	for {
+		// since we check headroom before an increase this should never result in a creation...
+		// some tests might not go through a scheduling that cycle so leave this
+		userTracker = m.getUserTracker(user.User)
+		// make sure the user has a groupTracker for this application, if not yet there add it
+		// since we check headroom before an increase this should never result in a call...
+		// some tests might not go through a scheduling cycle so leave this
+		if !userTracker.hasGroupForApp(applicationID) {
+			m.ensureGroupTrackerForApp(userTracker, queuePath, applicationID, user)
+		}
+		// A decrease that removes the last application of the user removes the tracker from the manager, that can happen
+		// at any time as increases and decreases are triggered from different routines. Usage added to a tracker that
+		// is no longer registered is lost: only increase the registered tracker, and keep it registered while doing so.
+		m.RLock()
+		if m.userTrackers[user.User] == userTracker {
+			userTracker.increaseTrackedResource(queuePath, applicationID, usage)
+			m.RUnlock()
+			break
+		}
+		m.RUnlock()
 	}
-	userTracker.increaseTrackedResource(queuePath, applicationID, usage)
 	appGroup := userTracker.getGroupForApp(applicationID)
 	log.Log(log.SchedUGM).Debug("Increasing resource usage for user",
 		zap.String("user", user.User),
@@ -164,7 +176,10 @@ func (m *Manager) DecreaseTrackedResource(queuePath, applicationID string, usage
 		log.Log(log.SchedUGM).Info("Removing user from manager",
 			zap.String("user", user.User))
 		m.Lock()
-		delete(m.userTrackers, user.User)
+		// the tracker could have been used again since the decrease: check again now that no increase can run
+		if m.userTrackers[user.User] == userTracker && userTracker.canBeRemoved() {
+			delete(m.userTrackers, user.User)
+		}
 		m.Unlock()
 	}
 	// if the app did not have a group we're done otherwise update the groupTracker
